@@ -496,7 +496,7 @@ class CSSParser:
             pattern = re.compile(r'^%s.*' % re.escape(value), flags)
         elif op.startswith('$'):
             # Value ends with
-            pattern = re.compile(r'.*?%s$' % re.escape(value), flags)
+            pattern = re.compile(r'.*?%s\Z' % re.escape(value), flags)
         elif op.startswith('*'):
             # Value contains
             pattern = re.compile(r'.*?%s.*' % re.escape(value), flags)
@@ -505,13 +505,13 @@ class CSSParser:
             # `~=` should match nothing if it is empty or contains whitespace,
             # so if either of these cases is present, use `[^\s\S]` which cannot be matched.
             value = r'[^\s\S]' if not value or RE_WS.search(value) else re.escape(value)
-            pattern = re.compile(r'.*?(?:(?<=^)|(?<=[ \t\r\n\f]))%s(?=(?:[ \t\r\n\f]|$)).*' % value, flags)
+            pattern = re.compile(r'.*?(?:(?<=^)|(?<=[ \t\r\n\f]))%s(?=(?:[ \t\r\n\f]|\Z)).*' % value, flags)
         elif op.startswith('|'):
             # Value starts with word in dash separated list
-            pattern = re.compile(r'^%s(?:-.*)?$' % re.escape(value), flags)
+            pattern = re.compile(r'^%s(?:-.*)?\Z' % re.escape(value), flags)
         else:
             # Value matches
-            pattern = re.compile(r'^%s$' % re.escape(value), flags)
+            pattern = re.compile(r'^%s\Z' % re.escape(value), flags)
             if op.startswith('!'):
                 # Equivalent to `:not([attr=value])`
                 inverse = True
